@@ -99,30 +99,33 @@ type param struct {
 }
 
 type funcInfo struct {
-	Unit      *unit
-	Name      string
-	Coq       string
-	Decl      *ast.FuncDecl
-	Recv      *structInfo
-	RecvName  string
-	TypeParms map[string]bool
-	Params    []param
-	Results   []param // Name == "" when unnamed
-	Writes    bool
-	Abs       *absIface       // method of an abstract interface (no body)
-	Static    bool            // ... a package-level function of the abstract container's package (constructor)
-	Variadic  bool            // the last parameter is variadic (a slice)
-	Partial   bool            // may panic or runs a fuelled loop: result is an option
-	Fuel      bool            // takes a fuel parameter
-	Needs     map[string]bool // container fields needed as parameters
-	callees   []*funcInfo
-	orderDeps []*funcInfo
-	text      string // emitted Gallina
+	Unit       *unit
+	Name       string
+	Coq        string
+	Decl       *ast.FuncDecl
+	Recv       *structInfo
+	RecvName   string
+	TypeParms  map[string]bool
+	Params     []param
+	Results    []param // Name == "" when unnamed
+	Writes     bool
+	Abs        *absIface       // method of an abstract interface (no body)
+	OpaqueRecv string          // method of an opaque receiver type (translated as a function of the abstract value)
+	Static     bool            // ... a package-level function of the abstract container's package (constructor)
+	Variadic   bool            // the last parameter is variadic (a slice)
+	Partial    bool            // may panic or runs a fuelled loop: result is an option
+	Fuel       bool            // takes a fuel parameter
+	Needs      map[string]bool // container fields needed as parameters
+	callees    []*funcInfo
+	orderDeps  []*funcInfo
+	text       string // emitted Gallina
 }
 
 type unit struct {
 	Spec      unitSpec
 	File      *ast.File
+	Files     []*ast.File
+	ExtraSha  []string
 	Dir       string
 	Imports   map[string]string // local package name -> directory relative to repo
 	Structs   []*structInfo
@@ -141,6 +144,14 @@ type unit struct {
 	Deps      map[string]bool
 	Sha       string
 	SrcLines  int
+}
+
+func (u *unit) allDecls() []ast.Decl {
+	var ds []ast.Decl
+	for _, f := range u.Files {
+		ds = append(ds, f.Decls...)
+	}
+	return ds
 }
 
 type translator struct {
@@ -334,6 +345,44 @@ func (t *translator) loadAbsPkg(a *absIface, at token.Pos) {
 		t.absPkgs[a.Dir] = files
 	}
 	_ = files
+}
+
+// the interface of an opaque receiver type of unit u (created on first use)
+func (t *translator) opaqueIface(u *unit, name string, at token.Pos) *absIface {
+	if u == nil || u.Spec.Opaque == nil {
+		return nil
+	}
+	as, ok := u.Spec.Opaque[name]
+	if !ok {
+		return nil
+	}
+	for _, a := range u.Abs {
+		if a.Field == name && a.Dir == u.Dir && a.Type == name {
+			return a
+		}
+	}
+	a := &absIface{Field: name, Dir: u.Dir, Type: name, Pure: map[string]bool{}, Methods: map[string]*funcInfo{}, pos: at, unit: u}
+	u.Abs = append(u.Abs, a)
+	for _, p := range as.Pure {
+		a.Pure[p] = true
+	}
+	if as.Methods != nil {
+		a.Fixed, a.filling = true, true
+		for _, n := range as.Methods {
+			switch {
+			case n == "lit.empty":
+				a.Methods[n] = &funcInfo{Name: "empty", Coq: name + "_lit_empty", Abs: a, Static: true, Needs: map[string]bool{}, Results: []param{{"", ty{K: kAbs, A: a}}}}
+			case n == "Iterator":
+				a.Methods["enum.Iterator"] = &funcInfo{Name: "Iterator", Coq: name + "_Iterator_enum", Abs: a, Needs: map[string]bool{}}
+			case strings.HasPrefix(n, "pkg."):
+				t.absFunc(a, strings.TrimPrefix(n, "pkg."), true, at)
+			default:
+				t.absFunc(a, n, false, at)
+			}
+		}
+		a.filling = false
+	}
+	return a
 }
 
 func isNodePtr(e ast.Expr) bool {
@@ -656,13 +705,16 @@ func (t *translator) resolveType(e ast.Expr, c tctx) ty {
 		if c.tparm[x.Name] {
 			return ty{K: kElem}
 		}
+		if a := t.opaqueIface(c.u, x.Name, x.Pos()); a != nil {
+			return ty{K: kAbs, A: a}
+		}
 		if s := t.findStruct(c.u.Dir, x.Name, c.u); s != nil {
 			return ty{K: kStruct, S: s}
 		}
 		t.unsupported(x.Pos(), "type %s (not int, bool, the type parameter, or a whitelisted struct)", x.Name)
 	case *ast.StarExpr:
 		r := t.resolveType(x.X, c)
-		if r.K != kStruct {
+		if r.K != kStruct && r.K != kAbs {
 			t.unsupported(x.Pos(), "pointer to a non-struct type")
 		}
 		return r
@@ -678,7 +730,7 @@ func (t *translator) resolveType(e ast.Expr, c tctx) ty {
 			t.unsupported(x.Pos(), "generic instantiation with something else than the type parameter / int")
 		}
 		r := t.resolveType(x.X, c)
-		if r.K != kStruct {
+		if r.K != kStruct && r.K != kAbs {
 			t.unsupported(x.Pos(), "instantiation of a non-struct generic type")
 		}
 		return r
@@ -1239,6 +1291,20 @@ func (f *fx) composite(cl *ast.CompositeLit, e env) (string, ty) {
 		return "0", ty{K: kElem} // struct{}{}
 	}
 	t := f.t.resolveType(cl.Type, tctx{f.u, f.fi.TypeParms})
+	if t.K == kAbs { // &T{} of an opaque receiver type
+		if len(cl.Elts) != 0 {
+			f.bad(cl.Pos(), "composite literal of the abstract type %s with fields", t.A.Type)
+		}
+		fi, ok := t.A.Methods["lit.empty"]
+		if !ok {
+			if t.A.Fixed {
+				f.bad(cl.Pos(), "composite literal &%s{}: not in the interface declared in whitelist.go", t.A.Type)
+			}
+			fi = &funcInfo{Name: "empty", Coq: t.A.Field + "_lit_empty", Abs: t.A, Static: true, Needs: map[string]bool{}, Results: []param{{"", t}}}
+			t.A.Methods["lit.empty"] = fi
+		}
+		return "(" + fi.Coq + " " + t.A.Field + "_I)", t
+	}
 	if t.K != kStruct {
 		f.bad(cl.Pos(), "composite literal of a non-struct type")
 	}
@@ -1443,6 +1509,20 @@ func (f *fx) call(c *ast.CallExpr, e env) (string, []ty, *funcInfo) {
 						}
 						return f.apply(c, f.t.absFunc(a, sel.Sel.Name, true, c.Pos()), "", nil, e)
 					}
+				}
+			}
+		}
+	}
+	if ixl, ok := c.Fun.(*ast.IndexListExpr); ok { // F[K, V](...)
+		if id, ok := ixl.X.(*ast.Ident); ok {
+			okTypes := true
+			for _, ix := range ixl.Indices {
+				a := f.t.resolveType(ix, tctx{f.u, f.fi.TypeParms})
+				okTypes = okTypes && (a.K == kElem || a.K == kInt)
+			}
+			if info := f.t.findFunc(f.u.Dir, id.Name, f.u); info != nil && okTypes {
+				if _, shadow := e.vars[id.Name]; !shadow {
+					return f.apply(c, info, "", nil, e)
 				}
 			}
 		}
@@ -2780,7 +2860,7 @@ func (t *translator) translateFunc(fi *funcInfo) {
 	}
 	body := f.stmts(fi.Decl.Body.List, e, k0, true)
 	pos := t.fset.Position(fi.Decl.Pos())
-	out := fmt.Sprintf("(* %s:%d  func %s *)\n", fi.Unit.Spec.GoFile, pos.Line, fi.Name)
+	out := fmt.Sprintf("(* %s/%s:%d  func %s *)\n", fi.Unit.Dir, filepath.Base(pos.Filename), pos.Line, fi.Name)
 	for _, a := range f.aux {
 		out += a
 	}
